@@ -850,6 +850,9 @@ func nestSort(el Sort, depth int) Sort {
 // mapComp returns the current term of one of the three components of a map type.
 func (vc *VC) mapComp(h *Heap, mt SType, which string) Term {
 	key := mapKey(mt)
+	if !mt.Key.single() {
+		panic(unsupported{"map with composite key type unsupported: " + mt.String()})
+	}
 	if mt.Key.SortOf() != SInt {
 		efail("map with non-Int key sort unsupported: %s", mt)
 	}
@@ -1220,22 +1223,36 @@ func (vc *VC) elemLanes(el SType) []lane {
 	if el.single() {
 		return []lane{{vc.elemsComp(el), el.SortOf(), el}}
 	}
-	if el.K != KStruct {
-		efail("slice element type %s unsupported", el)
+	return vc.lanesAt("elems:"+el.String(), el)
+}
+
+// lanesAt flattens a composite slice element type into its scalar components (one two-index component per
+// scalar field path; a slice-typed part contributes its four header words), named the way FieldAddr/readLoc
+// name them when they follow a pointer into the backing array.
+func (vc *VC) lanesAt(prefix string, t SType) []lane {
+	reg := func(name string, sort Sort, ft SType, ref, nonneg bool) lane {
+		vc.registerComp(name, compInfo{Sort: ArrSort(SInt, ArrSort(SInt, sort)), Depth: 2, RefVals: ref, NonNeg: nonneg})
+		return lane{name, sort, ft}
 	}
-	var out []lane
-	s, _ := structOf(el.Go)
-	for i := 0; i < s.NumFields(); i++ {
-		f := s.Field(i)
-		ft := FromGo(f.Type())
-		if !ft.single() {
-			efail("slice of struct %s with composite field %s unsupported", el, f.Name())
+	switch {
+	case t.K == KUnit:
+		return nil
+	case t.single():
+		return []lane{reg(prefix, t.SortOf(), t, isRefKind(t), t.K == KInt && t.Unsigned)}
+	case t.K == KSlice:
+		return []lane{reg(prefix+"#arr", SInt, tInt, true, false), reg(prefix+"#off", SInt, tInt, false, true),
+			reg(prefix+"#len", SInt, tInt, false, true), reg(prefix+"#cap", SInt, tInt, false, true)}
+	case t.K == KStruct:
+		var out []lane
+		s, _ := structOf(t.Go)
+		for i := 0; i < s.NumFields(); i++ {
+			f := s.Field(i)
+			out = append(out, vc.lanesAt(prefix+"."+f.Name(), FromGo(f.Type()))...)
 		}
-		name := "elems:" + el.String() + "." + f.Name()
-		vc.registerComp(name, compInfo{Sort: ArrSort(SInt, ArrSort(SInt, ft.SortOf())), Depth: 2, RefVals: isRefKind(ft), NonNeg: ft.K == KInt && ft.Unsigned})
-		out = append(out, lane{name, ft.SortOf(), ft})
+		return out
 	}
-	return out
+	efail("slice element type with a part of type %s unsupported", t)
+	return nil
 }
 
 
